@@ -45,12 +45,13 @@ def build(case, ck, counter):
     import jax
     import jax.numpy as jnp
 
+    import jaxtyping
     from jaxtyping import Float
 
     ns = {"__name__": "vf_generated", "jnp": jnp, "__count": counter}
     parts = []
-    for p in case["params"]:
-        ns[f"A_{p['name']}"] = Float[jax.Array, gc.spec_of(p)]
+    for i, p in enumerate(case["params"]):
+        ns[f"A_{p['name']}"] = (getattr(jaxtyping, case.get("cat", "Float")) if i in case.get("cat_params", []) else Float)[jax.Array, gc.spec_of(p)]
         # a numeric default (the argument is passed explicitly anyway) on the trailing parameters
         parts.append(f"{p['name']}: A_{p['name']}" + (" = 1.0" if p.get("default") else ""))
     retstr = ""
@@ -98,11 +99,16 @@ def check_case(ctx, case):
     ref = dl.satisfiable(checks, args={p["name"]: _types.SimpleNamespace(shape=tuple(p["shape"])) for p in case["params"]})
     if ref is None:
         return
+    from vf.models import dtypes as dt
+
+    # all arrays are float32: a parameter annotated with another category is accepted iff that category contains float32
+    dtype_ok = (not case.get("cat_params")) or dt.accepts(case.get("cat", "Float"), "float32")
+    ref = ref and dtype_ok
     ck = case["checker"]
     counter = []
     f = build(case, ck, counter)
     shapes = [tuple(p["shape"]) for p in case["params"]]
-    desc = f"params={[(p['name'], gc.spec_of(p), p['shape']) for p in case['params']]} ret={(gc.spec_of(case['ret']), case['ret']['shape']) if case['ret'] else None} checker={ck}"
+    desc = f"category {case.get('cat')} for parameters {case.get('cat_params')}; params={[(p['name'], gc.spec_of(p), p['shape']) for p in case['params']]} ret={(gc.spec_of(case['ret']), case['ret']['shape']) if case['ret'] else None} checker={ck}"
     rng = np.random.RandomState(0)
     fills = {
         "zeros": [jnp.zeros(s, dtype="float32") for s in shapes],
@@ -147,6 +153,12 @@ def check_case(ctx, case):
     }
     if case.get("quick_subset"):
         trans = {k: v for k, v in trans.items() if k in case["quick_subset"]}
+    if any(s == () for s in shapes):
+        # Python scalars for the rank-0 arguments: the tracers are weakly typed float32[] -- same shape and dtype as jnp.zeros(())
+        pyargs = [0.5 if a.shape == () else a for a in args]
+        trans["jit-pyscalar"] = lambda: jax.jit(f)(*pyargs)
+        trans["grad-pyscalar"] = lambda: jax.grad(scalar, argnums=argnums)(*pyargs)
+        trans["eval_shape-pyscalar"] = lambda: jax.eval_shape(f, *pyargs)
     for name, thunk in trans.items():
         counter.clear()
         got = outcome(thunk)
@@ -155,7 +167,7 @@ def check_case(ctx, case):
         if got != eager:
             raise Violation("traced-vs-eager", case, f"{name}: {got}, eager: {eager}; {desc} in_axes={in_axes} in_axes2={in_axes2}")
         # one trace per transformation; JAX's tracing cache may serve jit-again / eval_shape from the earlier jit trace
-        if got == "ok" and not (len(counter) == 1 or (len(counter) == 0 and name in ("jit-again", "eval_shape", "jit"))):
+        if got == "ok" and not (len(counter) == 1 or (len(counter) == 0 and (name in ("jit-again", "eval_shape", "jit") or name.endswith("-pyscalar")))):
             raise Violation("body-count", case, f"{name}: body traced {len(counter)} times; {desc}")
     names = {}
     for p in case["params"]:
@@ -166,7 +178,7 @@ def check_case(ctx, case):
     ctx.extra["transformed_calls"] = ctx.extra.get("transformed_calls", 0) + len(trans)
     ctx.note([[(gc.spec_of(p), p["shape"]) for p in case["params"]], case["ret"] and (gc.spec_of(case["ret"]), case["ret"]["shape"]), in_axes, in_axes2, ck],
              (len(case["params"]) >= 2 and shared) or not ref,
-             classes=[f"verdict-{eager}", f"nparams-{len(case['params'])}", f"checker-{ck}"] + (["shared-name"] if shared else []) + (["some-in_axes-None"] if None in in_axes else []),
+             classes=([f"category-{case.get('cat')}"] if case.get("cat_params") else []) + (["python-scalar-arguments"] if any(s == () for s in shapes) else []) + [f"verdict-{eager}", f"nparams-{len(case['params'])}", f"checker-{ck}"] + (["shared-name"] if shared else []) + (["some-in_axes-None"] if None in in_axes else []) + (["parameter-named-like-axis-in-expression"] if case.get("shadowing_names") else []),
              sample={"params": [(p["name"], gc.spec_of(p), p["shape"]) for p in case["params"]], "ret": case["ret"] and (gc.spec_of(case["ret"]), case["ret"]["shape"]),
                      "in_axes": in_axes, "verdict": eager})
 
@@ -182,10 +194,21 @@ def c17_case(draw):
     nd = draw(st.sampled_from([0, 1, 2, 0]))
     for p in case["params"][max(0, n - nd):]:
         p["default"] = True
+    # parameters may be called like axes that symbolic expressions mention ('n+1' with a parameter n): axis names and argument
+    # names live in different namespaces, an expression is evaluated over the axis sizes only
+    entries = case["params"] + ([case["ret"]] if case["ret"] else [])
+    toks_all = [gc.tok_from_json(j) for e in entries for j in e["tokens"]]
+    if draw(st.integers(0, 2)) == 0 and not any(t.base_kind == "sym" and dl.expr_holes(t.base) for t in toks_all):
+        sym_names = sorted({nm for t in toks_all if t.base_kind == "sym" for nm in dl.expr_names(t.base) if nm.isascii()})
+        pool = sym_names + [nm for nm in ["n", "a", "b", "c"] if nm not in sym_names]
+        order = draw(st.permutations(range(n)))
+        for idx, nm in zip(order, pool):
+            case["params"][idx]["name"] = nm
+        case["shadowing_names"] = bool(sym_names)
     # the return annotation may use an f-string axis over an *array* argument's shape ({x.shape[0]}): legitimate under
     # tracing too, a tracer has a static shape
     if case["ret"] is not None and case["params"][0]["shape"] and draw(st.integers(0, 2)) == 0:
-        case["ret"]["tokens"].insert(0, gc.tok_json(dl.Token("", "sym", ("holeidx", "x", "shape", 0))))
+        case["ret"]["tokens"].insert(0, gc.tok_json(dl.Token("", "sym", ("holeidx", case["params"][0]["name"], "shape", 0))))
         right = case["params"][0]["shape"][0]
         case["ret"]["shape"].insert(0, right if draw(st.integers(0, 3)) else right + 1)
     axes = []
@@ -204,6 +227,9 @@ def c17_case(draw):
     case["in_axes2"] = axes2
     case["batch"] = draw(st.sampled_from([2, 3, 1]))
     case["checker"] = draw(st.sampled_from(["typeguard", "beartype"]))
+    # some parameters are annotated with another dtype category than Float (all arrays are float32)
+    case["cat"] = draw(st.sampled_from(["Float16", "Float32", "Inexact", "Float64", "Shaped", "Int", "Num", "BFloat16"]))
+    case["cat_params"] = sorted(i for i in range(n) if draw(st.integers(0, 3)) == 0) if draw(st.integers(0, 1)) == 0 else []
     return case
 
 
